@@ -234,6 +234,12 @@ def sample_assignments(entry, path, n, seed):
     for kind, ids in path.hyps:
         for j in ids: inq[j] = (kind, ids)
     out = []
+    # variables boxed by assumed comparisons against constants (rounding variables, near-unit scales): sample inside the box
+    lob, hib = {}, {}
+    for (a, c, b) in path.assumes:
+        if c in (0, 1) and nodes[a].op == 'const' and nodes[b].op == 'var': lob[b] = max(lob.get(b, Fraction(nodes[a].c)), Fraction(nodes[a].c))
+        if c in (0, 1) and nodes[b].op == 'const' and nodes[a].op == 'var': hib[a] = min(hib.get(a, Fraction(nodes[b].c)), Fraction(nodes[b].c))
+    boxed = {v: (lob[v], hib[v]) for v in lob if v in hib and lob[v] < hib[v]}
     scales = [1, 1, 1, Fraction(1, 10 ** 4), Fraction(1, 10 ** 9), 10 ** 3, Fraction(1, 10 ** 6)]
     for k in range(n):
         sc = scales[k % len(scales)] if k else 1
@@ -263,6 +269,9 @@ def sample_assignments(entry, path, n, seed):
                     t = Fraction(math.tan(ang / 2)).limit_denominator(100000)
                     asg[ids[0]] = (1 - t * t) / (1 + t * t); asg[ids[1]] = 2 * t / (1 + t * t)
                 done.update(ids)
+            elif v in boxed:
+                lo_, hi_ = boxed[v]
+                asg[v] = (Fraction(nodes[v].w) if (k == 0 and lo_ <= Fraction(nodes[v].w) <= hi_) else lo_ + (hi_ - lo_) * Fraction(rnd.randint(1, 999), 1000)); done.add(v)
             else:
                 b = Fraction(nodes[v].w).limit_denominator(1000)
                 if k: b = b * Fraction(rnd.randint(500, 1500), 1000) * sc
